@@ -158,9 +158,11 @@ def _arch(rng):
             {"name": "Add0", "class": "compute", "attributes": {"type": "add"}},
             {"name": "Mrg", "class": "Merger", "attributes": {"inputs": 64, "comparator_radix": 64, "outputs": 1,
                                                               "order": "fifo", "reduce": False}},
+            {"name": "Mrg2", "class": "Merger", "attributes": {"inputs": 16, "comparator_radix": 16, "outputs": 1,
+                                                               "order": "fifo", "reduce": False}},
         ]
         pe = {"name": pe_name, "local": local_pe}
-        inst = {"DRAM": 1, "L2": 1, **{c["name"]: n_pe for c in local_pe}, "Add0": 1, "Mrg": 1}
+        inst = {"DRAM": 1, "L2": 1, **{c["name"]: n_pe for c in local_pe}, "Add0": 1, "Mrg": 1, "Mrg2": 1}
         if layout["lane"]:
             # a single-instance level nested under the (multi-instance) PE level
             pe["subtree"] = [{"name": "Lane", "local": [seq]}]
@@ -380,11 +382,21 @@ def gen_synth(rng, lf_any_leader=False):
             else:
                 _append_bindings(bl, rng.choice(["Buf", "Buf", "L2"]), buf)
         # hardware merger: an intermediate stored in one order and consumed in another
+        merged = False
         for t in ins:
             if t in outs and rng.random() < 0.6:
                 need = [r for r in lo[o] if r in ro[t]]
                 if need != ro[t]:
-                    bl.append({"component": "Mrg", "bindings": [{"tensor": t, "init-ranks": list(ro[t]), "final-ranks": need}]})
+                    _append_bindings(bl, "Mrg", [{"tensor": t, "init-ranks": list(ro[t]), "final-ranks": need}])
+                    merged = True
+        if merged and rng.random() < 0.4:
+            # a second merger bound to the same Einsum, listed before or after the first
+            t2 = [t for t in ins if t not in outs and len(ro[t]) >= 2 and [r for r in lo[o] if r in ro[t]] == ro[t]]
+            if t2:
+                t = rng.choice(t2)
+                ent = {"component": "Mrg2", "bindings": [{"tensor": t, "init-ranks": list(reversed(ro[t])), "final-ranks": list(ro[t])}]}
+                pos = [i for i, e_ in enumerate(bl) if e_.get("component") == "Mrg"][0]
+                bl.insert(pos + rng.choice([0, 1]), ent)
         if rng.random() < 0.2:
             cfg_rec = bl.pop(0)
             bl.insert(rng.randrange(len(bl) + 1), cfg_rec)
